@@ -397,6 +397,40 @@ func (a *bnAn) lo(v ssa.Value, at *ssa.BasicBlock, depth int, stack map[ssa.Valu
 	return base
 }
 
+// resultLo: a lower bound of result idx of a call to a module function: the
+// minimum over the callee's return sites (nothing is assumed about its
+// parameters).
+func (a *bnAn) resultLo(call *ssa.Call, idx int, depth int) (int64, bool) {
+	cal := call.Call.StaticCallee()
+	if cal == nil || cal.Blocks == nil || cal.Pkg == nil || !strings.HasPrefix(cal.Pkg.Pkg.Path(), modPath) || depth > 6 || cal == a.fn {
+		return 0, false
+	}
+	sub := &bnAn{c: a.c, fn: cal}
+	best := int64(bnTop)
+	n := 0
+	for _, b := range cal.Blocks {
+		ret, ok := b.Instrs[len(b.Instrs)-1].(*ssa.Return)
+		if !ok || idx >= len(ret.Results) {
+			continue
+		}
+		if !isIntType(ret.Results[idx].Type()) {
+			return 0, false
+		}
+		n++
+		l := sub.lo(ret.Results[idx], b, depth+4, map[ssa.Value]bool{})
+		if l == bnUnk {
+			return 0, false
+		}
+		if l < best {
+			best = l
+		}
+	}
+	if n == 0 || best >= bnTop/2 {
+		return 0, false
+	}
+	return best, true
+}
+
 func (a *bnAn) lo0(v ssa.Value, at *ssa.BasicBlock, depth int, stack map[ssa.Value]bool) int64 {
 	if c, ok := bnConst(v); ok {
 		return c
@@ -416,6 +450,12 @@ func (a *bnAn) lo0(v ssa.Value, at *ssa.BasicBlock, depth int, stack map[ssa.Val
 		return 0
 	}
 	switch v := v.(type) {
+	case *ssa.Extract:
+		if call, ok := v.Tuple.(*ssa.Call); ok {
+			if l, ok := a.resultLo(call, v.Index, depth); ok {
+				return l
+			}
+		}
 	case *ssa.Call:
 		n := bnCallee(v)
 		switch {
@@ -425,6 +465,9 @@ func (a *bnAn) lo0(v ssa.Value, at *ssa.BasicBlock, depth int, stack map[ssa.Val
 			return -1
 		case n == "strings.Count" || n == "bytes.Count":
 			return 0
+		}
+		if l, ok := a.resultLo(v, 0, depth); ok {
+			return l
 		}
 	case *ssa.Convert:
 		return a.lo(v.X, at, depth+1, stack)
@@ -488,6 +531,63 @@ func (a *bnAn) lo0(v ssa.Value, at *ssa.BasicBlock, depth int, stack map[ssa.Val
 			})
 			if res != bnUnk {
 				return res
+			}
+			// general form: (P+p) - (Q+q) under a dominating  Q+l < P+r  (or <=),
+			// where the right side may also be (P+r)/k, k >= 1, P >= 0
+			decomp := func(v ssa.Value) (ssa.Value, int64) {
+				if b, ok := v.(*ssa.BinOp); ok && (b.Op == token.ADD || b.Op == token.SUB) {
+					if c, ok := bnConst(b.Y); ok {
+						if b.Op == token.SUB {
+							c = -c
+						}
+						return b.X, c
+					}
+				}
+				return v, 0
+			}
+			P, pp := decomp(v.X)
+			Q, qq := decomp(v.Y)
+			best := int64(bnUnk)
+			guards(at, func(cond ssa.Value, truth bool, where *ssa.BasicBlock) {
+				bo, ok := cond.(*ssa.BinOp)
+				if !ok {
+					return
+				}
+				L, R, op := bo.X, bo.Y, bo.Op
+				if !truth {
+					op = negOp(op)
+				}
+				switch op {
+				case token.GTR:
+					L, R, op = R, L, token.LSS
+				case token.GEQ:
+					L, R, op = R, L, token.LEQ
+				}
+				if op != token.LSS && op != token.LEQ {
+					return
+				}
+				if q, ok := R.(*ssa.BinOp); ok && q.Op == token.QUO {
+					if k, ok := bnConst(q.Y); ok && k >= 1 {
+						if l := a.lo(q.X, where, depth+1, stack); l != bnUnk && l >= 0 {
+							R = q.X // R/k <= R for R >= 0
+						}
+					}
+				}
+				Lb, l := decomp(L)
+				Rb, r := decomp(R)
+				if !(Lb == Q || a.sameVal(Lb, Q)) || !(Rb == P || a.sameVal(Rb, P)) {
+					return
+				}
+				d := pp - qq - r + l
+				if op == token.LSS {
+					d++
+				}
+				if best == bnUnk || d > best {
+					best = d
+				}
+			})
+			if best != bnUnk {
+				return best
 			}
 		case token.MUL:
 			x, y := a.lo(v.X, at, depth+1, stack), a.lo(v.Y, at, depth+1, stack)
